@@ -15,10 +15,24 @@
     kinds / modes, incl. the leaf first frame and stacks that END with the outermost return-address
     slot; the stack part of `Pre` is proved, the side condition `gcfiSide` (which record covers
     which lookup address: module and CFI range tables) stays a hypothesis.
+  * `gcfiSide_one_module` / `walk_layout_cfi_generated_one_module` — for worlds of ONE module the side
+    condition follows from record-level facts: the module has a range, its STACK CFI records are
+    non-empty, inside the module and pairwise disjoint (`oneModOkB`), and the FIRST record of the list
+    covering each lookup address is the canonical one (`gcfiSideOne`: a linear search, no range tables).
+  * `gcfiSide_world` / `walk_layout_cfi_generated_world` — the same for worlds of SEVERAL modules (`worldOkB`:
+    modules with ranges, pairwise disjoint, each symbol file as above; `gcfiSideW`: linear search through the
+    module list, then through the module's records).
+  * `preScan_layout` / `walk_layout_scan_generated` (ARM64 ×2, MIPS64) / `walk_layout_scan_generated32` (x86,
+    x86-64, ARM not iOS, MIPS32 with its four skipped words) — scan-only chains: junk words `< 4096` that
+    are no valid instructions, within the scan windows; stacks that END with the outermost return address.
 -/
 import MdProofs.C04
 import MdProofs.Lemmas.WalkGenFp
 import MdProofs.Lemmas.WalkGenCfi
+import MdProofs.Lemmas.WalkGenSide
+import MdProofs.Lemmas.WalkGenSideW
+import MdProofs.Lemmas.WalkGenScan
+import MdProofs.Lemmas.WalkGenScanJunk
 import MdProofs.C04Cfi
 namespace MdModel.Walk
 open MdModel
@@ -147,5 +161,166 @@ example : gcfiWords 1 0 [{ n := 3, saves := true, ret := 0x400120, fpv := 0 }, {
 example : (gcfiChain 8 0x8000 1 0x9000 [{ n := 3, saves := true, ret := 0x400120, fpv := 0 },
       { n := 2, saves := false, ret := 0x400500, fpv := 0 }]).map (fun e => (e.ret, e.sp, e.fp)) =
     [(0x400120, 0x8020, some 0), (0x400500, 0x8030, some 0)] := by decide
+
+/-- **the side condition from record-level facts, worlds of one module**: the module has a range,
+    every STACK CFI record is non-empty and inside the module, the records are pairwise disjoint
+    (`oneModOkB` — what `tidy_world` arranges, incl. the appended leaf FUNC/CFI pair); then the
+    module-table and CFI-range-table lookups of `gcfiSide` (sort, drop overlapping ranges, binary
+    search) are the linear search `gcfiSideOne` over the record list -/
+theorem gcfiSide_one_module (w : World) (m : Module) (sf : SymFile) (hmods : w.mods = [m])
+    (hsyms : w.syms = [some sf]) (hok : oneModOkB m sf = true) (a : Arch) (instr : Nat) (first : Bool)
+    (frames : List CfiFr) (h : gcfiSideOne m sf a instr first frames = true) :
+    gcfiSide w a instr first frames = true :=
+  gcfiSide_of_one w m sf (oneModOk_of_B m sf hok) hmods hsyms a frames instr first h
+
+/-- `walk_layout_cfi_generated` for worlds of one module, the side condition replaced by
+    record-level facts -/
+theorem walk_layout_cfi_generated_one_module (a : Arch) (os : Os) (m : Module) (sf : SymFile)
+    (base s0 tail : Nat) (frames : List CfiFr)
+    (ctx : Ctx) (heff : effArch a ctx = a)
+    (hv : ctx.valid = none) (hsp : ctx.sp = pAddr a.ptr base s0)
+    (hbase : 16 < base) (htop : base + a.ptr * (gcfiWords s0 tail frames).length ≤ a.regMax)
+    (hin : s0 < (gcfiWords s0 tail frames).length)
+    (hfp : stripOf a (mkEnv a os { mods := [m], syms := [some sf] }
+        (wordsMemP a.ptr base (gcfiWords s0 tail frames))).mask (ctx.raw a a.fpName) = ctx.raw a a.fpName)
+    (hmod : oneModOkB m sf = true)
+    (hside : gcfiSideOne m sf a ctx.ip true frames = true)
+    (hok : gcfiFramesOk a (mkEnv a os { mods := [m], syms := [some sf] }
+        (wordsMemP a.ptr base (gcfiWords s0 tail frames))).mask frames = true)
+    (hlr : ∀ c rest, frames = c :: rest → c.n = 0 → ctx.raw a (if a.isMips then "ra" else "lr") = c.ret)
+    (hend : tail = 0 ∨ gcfiLastFp (ctx.raw a a.fpName) frames = 0) :
+    walk (mkEnv a os { mods := [m], syms := [some sf] } (wordsMemP a.ptr base (gcfiWords s0 tail frames)))
+        (some (wordsMemP a.ptr base (gcfiWords s0 tail frames))) ctx =
+      symbolise (mkEnv a os { mods := [m], syms := [some sf] } (wordsMemP a.ptr base (gcfiWords s0 tail frames)))
+          (Frame.ofCtx ctx .context) ::
+        expectedCfi (mkEnv a os { mods := [m], syms := [some sf] } (wordsMemP a.ptr base (gcfiWords s0 tail frames)))
+          { mods := [m], syms := [some sf] } a (Frame.ofCtx ctx .context)
+          (gcfiChain a.ptr base s0 (ctx.raw a a.fpName) frames) :=
+  walk_layout_cfi_generated a os { mods := [m], syms := [some sf] } base s0 tail frames ctx heff hv hsp hbase htop
+    hin hfp (gcfiSide_one_module _ m sf rfl rfl hmod a ctx.ip true frames hside) hok hlr hend
+
+-- non-vacuity: a module with two functions with canonical records (3 words saving rbp; 2 words) and a
+-- function without; the record-level side condition holds of the two-frame chain through them
+example : oneModOkB { base := 0x400000, size := 0x1000, name := "m0" }
+    { cfis := [{ addr := 0x100, size := 0x80, init := ".cfa: $rsp 24 + .ra: .cfa -8 + ^ $rbp: .cfa -16 + ^", adds := [] },
+               { addr := 0x200, size := 0x80, init := ".cfa: $rsp 16 + .ra: .cfa -8 + ^", adds := [] }] } = true := by decide
+example : gcfiSideOne { base := 0x400000, size := 0x1000, name := "m0" }
+    { cfis := [{ addr := 0x100, size := 0x80, init := ".cfa: $rsp 24 + .ra: .cfa -8 + ^ $rbp: .cfa -16 + ^", adds := [] },
+               { addr := 0x200, size := 0x80, init := ".cfa: $rsp 16 + .ra: .cfa -8 + ^", adds := [] }] }
+    .amd64 0x400110 true
+    [{ n := 3, saves := true, ret := 0x400220, fpv := 0 }, { n := 2, saves := false, ret := 0x400500, fpv := 0 }] = true := by
+  rfl
+
+/-- **the side condition from record-level facts, worlds of several modules** (in any list order):
+    the modules have ranges and are pairwise disjoint, every symbol file's STACK CFI records are
+    non-empty, inside its module and pairwise disjoint (`worldOkB` — what `tidy_world` arranges); then
+    `gcfiSide`'s lookups are two linear searches (`gcfiSideW`: first module containing the address,
+    first record of it covering the address) -/
+theorem gcfiSide_world (w : World) (hok : worldOkB w = true) (a : Arch) (instr : Nat) (first : Bool)
+    (frames : List CfiFr) (h : gcfiSideW w a instr first frames = true) :
+    gcfiSide w a instr first frames = true :=
+  gcfiSide_of_world w hok a frames instr first h
+
+/-- `walk_layout_cfi_generated` with the side condition replaced by record-level facts -/
+theorem walk_layout_cfi_generated_world (a : Arch) (os : Os) (w : World) (base s0 tail : Nat) (frames : List CfiFr)
+    (ctx : Ctx) (heff : effArch a ctx = a)
+    (hv : ctx.valid = none) (hsp : ctx.sp = pAddr a.ptr base s0)
+    (hbase : 16 < base) (htop : base + a.ptr * (gcfiWords s0 tail frames).length ≤ a.regMax)
+    (hin : s0 < (gcfiWords s0 tail frames).length)
+    (hfp : stripOf a (mkEnv a os w (wordsMemP a.ptr base (gcfiWords s0 tail frames))).mask (ctx.raw a a.fpName) =
+      ctx.raw a a.fpName)
+    (hworld : worldOkB w = true) (hside : gcfiSideW w a ctx.ip true frames = true)
+    (hok : gcfiFramesOk a (mkEnv a os w (wordsMemP a.ptr base (gcfiWords s0 tail frames))).mask frames = true)
+    (hlr : ∀ c rest, frames = c :: rest → c.n = 0 → ctx.raw a (if a.isMips then "ra" else "lr") = c.ret)
+    (hend : tail = 0 ∨ gcfiLastFp (ctx.raw a a.fpName) frames = 0) :
+    walk (mkEnv a os w (wordsMemP a.ptr base (gcfiWords s0 tail frames)))
+        (some (wordsMemP a.ptr base (gcfiWords s0 tail frames))) ctx =
+      symbolise (mkEnv a os w (wordsMemP a.ptr base (gcfiWords s0 tail frames))) (Frame.ofCtx ctx .context) ::
+        expectedCfi (mkEnv a os w (wordsMemP a.ptr base (gcfiWords s0 tail frames))) w a (Frame.ofCtx ctx .context)
+          (gcfiChain a.ptr base s0 (ctx.raw a a.fpName) frames) :=
+  walk_layout_cfi_generated a os w base s0 tail frames ctx heff hv hsp hbase htop hin hfp
+    (gcfiSide_world w hworld a ctx.ip true frames hside) hok hlr hend
+
+theorem gscanWords_split (s0 tail : Nat) (frames : List ScFr) :
+    gscanWords s0 tail frames = List.replicate s0 0 ++ (gscanBody frames ++ List.replicate tail 0) := by
+  simp only [gscanWords, List.append_assoc]
+
+/-- "findable only by scanning": the scan-only generator's stacks satisfy `preScan`, for ALL its
+    parameters (stack base `≥ 4096`, word position of the stack pointer, per frame its junk words and
+    return address, `tail` zero words behind the last frame — `tail = 0`: the stack ENDS with the
+    outermost return-address slot), on every architecture — given `gscanFramesOk`: the junk words the
+    walker looks at are `< 4096` and not valid instructions, fewer than the scan window (160 / 40;
+    MIPS64 128; MIPS32 256 / 252 after the four skipped words of every frame but the topmost), the
+    return addresses are valid instructions `≥ 4096` -/
+theorem preScan_layout (env : Env) (a : Arch) (os : Os) (base s0 tail : Nat) (frames : List ScFr) (ctx : Ctx)
+    (hv : ctx.valid = none) (hsp : ctx.sp = pAddr a.ptr base s0) (hfp : ctx.raw a a.fpName = 0)
+    (hios : a = .arm → os ≠ .ios) (hbase : 4096 ≤ base)
+    (htop : base + a.ptr * (gscanWords s0 tail frames).length ≤ a.regMax)
+    (hok : gscanFramesOk env a true frames = true) :
+    preScan env a os (wordsMemP a.ptr base (gscanWords s0 tail frames)) ctx (gscanChain a.ptr base s0 frames) = true := by
+  have hfrom := preScan_gen_aux env a base tail (gscanWords s0 tail frames) htop frames s0 true (List.replicate s0 0)
+    (gscanWords_split s0 tail frames) (by simp) hok
+  have hi : (!(decide (a = .arm) && decide (os = .ios))) = true := by
+    by_cases h : a = .arm
+    · have := hios h; simp [h, this]
+    · simp [h]
+  simp only [preScan, hv, hfp, hsp, wordsMemP_base, hbase, hfrom, hi, Option.isNone_none, decide_true, Bool.and_self]
+
+/-- **every scan-only stack the generator's layout function produces is walked to its chain**
+    (ARM64 both context layouts, MIPS64): any environment without STACK CFI in which
+    `gscanFramesOk` holds -/
+theorem walk_layout_scan_generated (env : Env) (a : Arch) (harch : env.arch = a) (ha : a.plainScan64 = true)
+    (hcfi : NoCfi env) (base s0 tail : Nat) (frames : List ScFr) (ctx : Ctx)
+    (hv : ctx.valid = none) (hsp : ctx.sp = pAddr a.ptr base s0) (hfp : ctx.raw a a.fpName = 0)
+    (h64 : a = .mips64 → ctx.m64 = true)
+    (hlen : 0 < (gscanWords s0 tail frames).length)
+    (htop : base + a.ptr * (gscanWords s0 tail frames).length ≤ a.regMax)
+    (hok : gscanFramesOk env a true frames = true) :
+    walk env (some (wordsMemP a.ptr base (gscanWords s0 tail frames))) ctx =
+      symbolise env (Frame.ofCtx ctx .context) :: expectedScan env a (gscanChain a.ptr base s0 frames) := by
+  have hm : (wordsMemP a.ptr base (gscanWords s0 tail frames)).range?.isSome = true :=
+    wordsMemP_range a.ptr base _ (ptr_pos a) hlen (by have := regMax_le_u64 a; omega)
+  refine walk_layout_scan env a harch ha hcfi _ hm ctx hv hfp h64 _ ?_
+  rw [hsp]
+  exact preScan_gen_aux env a base tail (gscanWords s0 tail frames) htop frames s0 true (List.replicate s0 0)
+    (gscanWords_split s0 tail frames) (by simp) hok
+
+/-- the same on x86, x86-64, ARM (not iOS) and MIPS32 (four skipped words on every frame but the
+    topmost): stack base `≥ 4096` -/
+theorem walk_layout_scan_generated32 (env : Env) (a : Arch) (harch : env.arch = a) (ha : a.scan32 = true)
+    (hos : a = .arm → env.os ≠ .ios) (hcfi : NoCfi env) (hok0 : a = .arm → env.instrOk 0 = false)
+    (base s0 tail : Nat) (frames : List ScFr) (ctx : Ctx)
+    (hv : ctx.valid = none) (hsp : ctx.sp = pAddr a.ptr base s0) (hfp : ctx.raw a a.fpName = 0)
+    (h64 : ctx.m64 = false) (hbase : 4096 ≤ base) (hin : s0 ≤ (gscanWords s0 tail frames).length)
+    (hlen : 0 < (gscanWords s0 tail frames).length)
+    (htop : base + a.ptr * (gscanWords s0 tail frames).length ≤ a.regMax)
+    (hok : gscanFramesOk env a true frames = true) :
+    walk env (some (wordsMemP a.ptr base (gscanWords s0 tail frames))) ctx =
+      symbolise env (Frame.ofCtx ctx .context) :: expectedScan32 env a (gscanChain a.ptr base s0 frames) := by
+  have hm : (wordsMemP a.ptr base (gscanWords s0 tail frames)).range?.isSome = true :=
+    wordsMemP_range a.ptr base _ (ptr_pos a) hlen (by have := regMax_le_u64 a; omega)
+  have hsp' : ctx.sp ≤ a.regMax := by
+    have : a.ptr * s0 ≤ a.ptr * (gscanWords s0 tail frames).length := Nat.mul_le_mul_left _ hin
+    rw [hsp]; simp only [pAddr]; omega
+  refine walk_layout_scan' env a harch ha hos hcfi hok0 _ hm hbase ctx hv hfp h64 hsp' _ ?_
+  rw [hsp]
+  exact preScan_gen_aux env a base tail (gscanWords s0 tail frames) htop frames s0 true (List.replicate s0 0)
+    (gscanWords_split s0 tail frames) (by simp) hok
+
+/-- the junk half of `gscanFramesOk` from a record-level fact: in the environment of a world whose
+    modules all start at or above 4096 (`tidy_world`: `≥ 0x10000`) a junk word `< 4096` is no valid
+    instruction, so `gscanFramesOkJ` (windows, junk `< 4096`, return addresses valid) suffices -/
+theorem gscanFramesOk_of_junk (a : Arch) (os : Os) (w : World) (mem : Mem)
+    (hb : ∀ m ∈ w.mods, 4096 ≤ m.base) (first : Bool) (frames : List ScFr)
+    (h : gscanFramesOkJ (mkEnv a os w mem) a first frames = true) :
+    gscanFramesOk (mkEnv a os w mem) a first frames = true :=
+  gscanFramesOk_of_J a os w mem hb frames first h
+
+-- non-vacuity: a MIPS32 two-frame stack (one junk word; then four skipped words, one junk word), ending
+-- with the outermost return-address slot, spelled out
+example : gscanWords 1 0 [{ junk := [7], ret := 0x400120 }, { junk := [0, 0, 0, 0, 9], ret := 0x400500 }] =
+    [0, 7, 0x400120, 0, 0, 0, 0, 9, 0x400500] := by decide
+example : (gscanChain 4 0x8000 1 [{ junk := [7], ret := 0x400120 }, { junk := [0, 0, 0, 0, 9], ret := 0x400500 }]).map
+    (fun e => (e.ret, e.sp, e.fp)) = [(0x400120, 0x800c, none), (0x400500, 0x8024, none)] := by decide
 
 end MdModel.Walk
